@@ -200,6 +200,7 @@ type TermBuilder struct {
 	MaxDepth int
 	NoInline bool
 	inlineDepth int
+	Choose   func(*ssa.Phi) ssa.Value // optional: resolve a phi under a mode valuation
 	// Inline: module functions whose single-return body may be substituted (none by default).
 }
 
@@ -646,6 +647,11 @@ func (tb *TermBuilder) term1(v ssa.Value, depth int) *Term {
 		}
 		return &Term{Op: "call", Name: name, Args: ts}
 	case *ssa.Phi:
+		if tb.Choose != nil {
+			if r := tb.Choose(v); r != nil {
+				return tb.term(r, d)
+			}
+		}
 		if ct := tb.collectTerm(v, d); ct != nil {
 			return ct
 		}
